@@ -224,7 +224,7 @@ func genOptionToks(r *rng.R, ty string) []Tok {
 	case "src", "targ":
 		ts = append(ts, genPathValueToks(r)...)
 	case "absent":
-		if r.Chance(6, 7) {
+		if r.Chance(3, 4) {
 			ts = append(ts, lit("skip")...)
 		} else {
 			ts = append(ts, lit(r.Pick([]string{"jump", "Skip", "", "skip ", "skipp", "ski", "yes"}))...)
@@ -338,6 +338,34 @@ func genMatrixLine(r *rng.R, cell int) Input {
 			}
 		}
 	}
+	return Input{Kind: "line", Line: B(RenderLine(fields, "")), HasS: true, Fields: toJ(fields)}
+}
+
+// boundary values, one per call, in an otherwise valid line of a type that takes the option
+var valueMatrix = [][2]string{
+	{"uid", "0"}, {"uid", "2147483647"}, {"uid", "2147483648"}, {"uid", "4294967295"}, {"uid", "4294967296"},
+	{"uid", "-1"}, {"gid", "-1"}, {"uid", "-2147483648"}, {"gid", "-5"}, {"uid", "+5"}, {"gid", "-0"}, {"uid", ""},
+	{"gid", "abc"}, {"uid", "1:2"}, {"uid", "1:-2"}, {"uid", "-1:2"}, {"uid", "2147483648:1"}, {"uid", "1:2147483648"},
+	{"gid", "2147483647"}, {"gid", "2147483648"}, {"gid", "99999999999999999999"}, {"uid", "007"}, {"gid", "1:2"},
+	{"dev", "c0:0"}, {"dev", "b255:255"}, {"dev", "c256:256"}, {"dev", "c4294967295:4294967295"}, {"dev", "c4294967296:1"},
+	{"dev", "c1:4294967296"}, {"dev", "c-1:2"}, {"dev", "c1:-2"}, {"dev", "x1:2"}, {"dev", "c1"}, {"dev", "c1:2:3"},
+	{"dev", ""}, {"dev", "c:1"}, {"dev", "b8:"}, {"dev", "c+1:2"},
+	{"absent", "skip"}, {"absent", ""}, {"absent", "skipp"}, {"absent", "Skip"}, {"absent", "skip "}, {"absent", "skip-it"},
+	{"mod", "7777"}, {"mod", "10000"}, {"mod", ""}, {"mod", "u+x,"}, {"mod", "o+t"}, {"mod", "a+x,o-x"}, {"mod", "u=rw"},
+	{"mod", "+"}, {"mod", "8"}, {"targ", ""}, {"src", ""}, {"targ", "a b"}, {"src", "a'b"},
+}
+
+func genValueLine(r *rng.R, idx int) Input {
+	kv := valueMatrix[idx%len(valueMatrix)]
+	ty := "node"
+	if kv[0] == "targ" {
+		ty = "symlink"
+	} else if kv[0] != "dev" && r.Bool() {
+		ty = r.Pick([]string{"file", "dir"})
+	}
+	name := lit(r.Pick([]string{"/etc/conf", "/dev/node0", "/opt/a"}))
+	opt := lit(kv[0] + "=" + kv[1])
+	fields := []SField{{"", QBare, lit(ty)}, {" ", genStyle(r, name), name}, {genSep(r, false), genStyle(r, opt), opt}}
 	return Input{Kind: "line", Line: B(RenderLine(fields, "")), HasS: true, Fields: toJ(fields)}
 }
 
